@@ -12,6 +12,7 @@ import (
 	"github.com/spq/pkappa2/verifx/c02"
 	"github.com/spq/pkappa2/verifx/c03"
 	"github.com/spq/pkappa2/verifx/c07"
+	"github.com/spq/pkappa2/verifx/c11"
 	"github.com/spq/pkappa2/verifx/c14"
 	"github.com/spq/pkappa2/verifx/c04"
 	"github.com/spq/pkappa2/verifx/c05"
@@ -64,6 +65,8 @@ func main() {
 		code = csvc.Run(*prop, *tier)
 	case "C07":
 		code = c07.Run(*tier)
+	case "C11":
+		code = c11.Run(*tier)
 	case "C14":
 		code = c14.Run(*tier)
 	case "C18":
